@@ -40,6 +40,16 @@ if TYPE_CHECKING:
     from .undefined import Undefined
 
 
+def _size(obj: Sized) -> int:
+    try:
+        return len(obj)
+    except OverflowError:
+        # A range with more items than `len()` can count.
+        if isinstance(obj, range) and obj.step == 1:
+            return max(0, obj.stop - obj.start)
+        raise
+
+
 class RenderContext:
     """Template render state."""
 
@@ -210,7 +220,7 @@ class RenderContext:
                 return obj["size"]
             except (KeyError, IndexError, TypeError):
                 if isinstance(obj, Sized):
-                    return len(obj)
+                    return _size(obj)
                 raise
         if key == "first":
             try:
@@ -247,7 +257,7 @@ class RenderContext:
                 return await _get_item(obj, "size")
             except (KeyError, IndexError, TypeError):
                 if isinstance(obj, Sized):
-                    return len(obj)
+                    return _size(obj)
                 raise
         if key == "first":
             try:
